@@ -102,6 +102,20 @@ theorem C19_seqno_single_atomic_step :
     Gen.counterBodies = [("Memberlist.nextIncarnation", ["return m.incarnation.Add(1)"]),
       ("Memberlist.nextSeqNo", ["return atomic.AddUint32(&m.sequenceNum, 1)"])] := by decide
 
+/-- **Ping counts only its own acknowledgement**: foreign acknowledgements, late ones, and the expiry of the
+pending record (which happens first when the probe interval is below the probe timeout) never make a
+`Ping` succeed. -/
+theorem C19_ping_answered_iff (interval timeout : Nat) (evs : List Ev) :
+    pingAnswered interval timeout evs = true ↔
+      ∃ e ∈ evs, e.kind = .ack ∧ e.mine = true ∧ e.t < interval ∧ e.t < timeout := by
+  unfold pingAnswered
+  simp only [List.any_eq_true, Bool.and_eq_true, beq_iff_eq, decide_eq_true_eq]
+  constructor
+  · rintro ⟨e, he, ⟨hk, hm⟩, ht⟩
+    exact ⟨e, he, hk, hm, by omega, by omega⟩
+  · rintro ⟨e, he, hk, hm, h1, h2⟩
+    exact ⟨e, he, ⟨hk, hm⟩, by omega⟩
+
 /-- a ping that could not be sent never marks the target and, refused locally, changes nothing at all -/
 theorem C19_local_send_error_is_inert (c : Cfg) (score : Nat) (evs : List Ev) (exp : Nat) (tcp : Bool) :
     probeWithSend .localError c score evs exp tcp = (false, 0) := rfl
